@@ -12,7 +12,7 @@ func init() {
 	register(&propInfo{
 		ID:          "C12",
 		Run:         runC12,
-		MinObl:      16,
+		MinObl:      21,
 		Explanation: "Every element below the exact length of a requested-scope list must have been accepted by the strategy (an element the path never mentions was skipped, not accepted). NOT decided (not applicable to this family): that the three scope strategies and two audience strategies decide exactly as documented — a statement about the results of small string algorithms; no structural necessary condition short of re-deriving the algorithm exists and a frozen-shape check would be a brittle proxy. Decided — the confinement half: R1 every flow validates what it is asked for: at every success exit (token-endpoint grants client_credentials, password, JWT-bearer) / issuing sink (authorization-endpoint handlers; layers: NewAuthorizeRequest or the handler), at the PAR endpoint (layers: NewPushedAuthorizeRequest or the PAR handler) and at the device endpoint, every iterated requested scope was accepted by the configured scope strategy (GetScopeStrategy, not a constant) against the client's registered scopes (JWT-bearer: the signing key's scopes from GetPublicKeyScopes) with the loop left only by exhaustion, and the configured audience strategy returned nil for (client audience, requested audience) where the flow takes an audience; R2 every GrantScope/GrantAudience in the handlers takes an element of the stored grant, or (JWT-bearer) of the validated requested scopes / the verified assertion's audience; R3 JWT access-token claims and the scope response field are built from GetGrantedScopes/GetGrantedAudience only.",
 	})
 }
@@ -270,6 +270,7 @@ func smallInline(fn *ssa.Function) bool {
 }
 
 func runC12(c *Ctx) {
+	defer checkGrantedBeforeMint(c, "C12.R8")
 	defer checkClientGetters(c, "C12.R7", clientGetter{"DefaultClient", "GetScopes", "Scopes", ""}, clientGetter{"DefaultClient", "GetAudience", "Audience", ""})
 	defer checkStoreLooksUp(c, "C12.R5", "GetPublicKeyScopes", 2, 3, 4)
 	defer checkAccessRequestPopulated(c, "C12.R6")
@@ -401,8 +402,12 @@ func c12R2(c *Ctx) {
 					}
 					if e.Name == ".GrantScope" && req != nil && X.Key() == call(".GetRequestedScopes", req).Key() {
 						// validated requested scopes (JWT-bearer): the strategy accepted this element before
+						// ... against a registration (the client's scopes, or the signing key's scopes) — a
+						// test against anything else (what was once requested, what the request itself says)
+						// confines nothing
 						v, k := p.BoolCallAt(e, "apply", func(t *Term) bool {
-							return len(t.Args) == 3 && t.Args[0].IsCall(".GetScopeStrategy") && t.Args[2].Key() == a.Key()
+							return len(t.Args) == 3 && t.Args[0].IsCall(".GetScopeStrategy") && t.Args[2].Key() == a.Key() &&
+								(t.Args[1].IsCall(".GetScopes") || t.Args[1].Mentions(func(s *Term) bool { return s.IsCall(".GetPublicKeyScopes") || s.Op == "icall" && strings.HasPrefix(s.Name, ".GetPublicKeyScopes") }))
 						})
 						good = k && v
 					}
